@@ -636,6 +636,11 @@ void clear_mocks(void) {
         destroy_cgreen_vector(learned_mock_calls);
         learned_mock_calls = NULL;
     }
+
+    if (successfully_mocked_calls != NULL) {
+        destroy_cgreen_vector(successfully_mocked_calls);
+        successfully_mocked_calls = NULL;
+    }
 }
 
 static void show_breadcrumb(const char *name, void *memo) {
